@@ -54,7 +54,7 @@ def Complete (cfg : Cfg) (compress : Bool) (s : Disk) : Prop :=
 
 /-- The environment leaves the run alone: no exception, and the split is faithful for every shank. -/
 def NoFault (cfg : Cfg) (call : Call) : Prop :=
-  call.interrupt = none ∧ ∀ i, i < cfg.n → call.corrupt ≠ some i
+  call.interrupt = none ∧ ∀ i, i < cfg.n → altered cfg call i = false
 
 /-- The run was made on the original (not on an already split shank file) of an NP2 probe. -/
 def OnOriginalNP2 (cfg : Cfg) (call : Call) : Prop :=
